@@ -11,6 +11,7 @@ Clauses(ob) ==
   \o (IF ob.includes # P(ob)!Includes(ob.inst, <<>>, ob.opts.top)
                         \o (IF ob.opts.ser THEN <<"#include <boost/serialization/export.hpp>">> ELSE <<>>)
       THEN <<"C16:includes-differ">> ELSE <<>>)
+  \o (IF ob.export # P(ob)!ExportLines(ob.inst, ob.opts) THEN <<"C03:serialization-exports-differ">> ELSE <<>>)
 Next ==
   /\ pos <= Len(Batch)
   /\ PrintT(<<"VERDICT", Batch[pos].id, ToJson(Clauses(Batch[pos]))>>)
